@@ -79,8 +79,14 @@ func c17MsgID(m int) string {
 	return api.GetDropPartitionMsgID(7, 70)
 }
 
+// c17Targets: the target list of a message in shard order (v0, v1, v2), as the channel manager hands it over. n < 10:
+// physical channel names that happen to be in lexicographic order; n = 10 + k: k shards whose physical channels are not
+// (dml_9 before dml_10, a collection placed across the wrap-around of the channel pool).
 func c17Targets(n int) []string {
 	all := []string{"ch1_7v0", "ch2_7v1", "ch3_7v2"}
+	if n >= 10 {
+		all, n = []string{"ch9_7v0", "ch10_7v1", "ch2_7v2"}, n-10
+	}
 	return all[:n]
 }
 
@@ -276,7 +282,7 @@ func c17Ops(nTargets int, multi bool) []c17Op {
 			for _, s := range tg {
 				ops = append(ops, c17Op{Kind: "report", Task: t, Msg: m, Shards: []string{s}})
 			}
-			if multi && nTargets >= 2 {
+			if multi && len(tg) >= 2 {
 				ops = append(ops, c17Op{Kind: "report", Task: t, Msg: m, Shards: []string{tg[0], tg[1]}})
 			}
 		}
@@ -318,10 +324,10 @@ func TestVerifC17Meta(t *testing.T) {
 		depth = 9
 	}
 	res.Bounds["depth"] = depth
-	res.Rule = "BFS over histories of {report(task, drop-collection|drop-partition message, shard subset), remove(task, message), reload from the store} for 2 tasks (ids prefix of each other) x 2 messages x target sets of 1..3 shards; each history replayed on a fresh real ReplicateMeteImpl over a JSON-serialising store; memory (white-box maps), store dump, API read-back and returned ready flag compared with a reference union after every step; states deduplicated on (memory, store) = the entire mutable state; non-trivial = distinct states reached through an accumulating report or a removal of a present message"
+	res.Rule = "BFS over histories of {report(task, drop-collection|drop-partition message, shard subset), remove(task, message), reload from the store} for 2 tasks (ids prefix of each other) x 2 messages x target lists of 1..3 shards (in and out of lexicographic order); each history replayed on a fresh real ReplicateMeteImpl over a JSON-serialising store; memory (white-box maps), store dump, API read-back and returned ready flag compared with a reference union after every step; states deduplicated on (memory, store) = the entire mutable state; non-trivial = distinct states reached through an accumulating report or a removal of a present message"
 	deadline := time.Now().Add(ev.Budget(120 * time.Second))
 	idx := 0
-	for nT := 1; nT <= 3; nT++ {
+	for _, nT := range []int{1, 2, 3, 12, 13} {
 		for _, multi := range []bool{false, true} {
 			if multi && !ev.Thorough() {
 				continue
